@@ -100,56 +100,119 @@ fn displace_cf_col(col: i32, data: &DisplaceData, sheet: u32) -> Option<i32> {
     }
 }
 
-/// Displaces a single A1-style sqref part (e.g. "A1" or "A1:B5").
-/// Returns the original string unchanged if any corner would become #REF!.
-fn displace_cf_sqref_part(part: &str, data: &DisplaceData, sheet: u32) -> String {
-    let upper = part.to_uppercase();
-    let segs: Vec<&str> = upper.splitn(2, ':').collect();
-    match segs.len() {
-        1 => {
-            if let Some(r) = utils::parse_reference_a1(segs[0]) {
-                if let (Some(nr), Some(nc)) = (
-                    displace_cf_row(r.row, data, sheet),
-                    displace_cf_col(r.column, data, sheet),
-                ) {
-                    if let Some(c) = utils::number_to_column(nc) {
-                        return format!("{c}{nr}");
-                    }
-                }
-            }
-            part.to_string()
-        }
-        2 => {
-            if let (Some(r1), Some(r2)) = (
-                utils::parse_reference_a1(segs[0]),
-                utils::parse_reference_a1(segs[1]),
-            ) {
-                if let (Some(nr1), Some(nc1), Some(nr2), Some(nc2)) = (
-                    displace_cf_row(r1.row, data, sheet),
-                    displace_cf_col(r1.column, data, sheet),
-                    displace_cf_row(r2.row, data, sheet),
-                    displace_cf_col(r2.column, data, sheet),
-                ) {
-                    if let (Some(c1), Some(c2)) =
-                        (utils::number_to_column(nc1), utils::number_to_column(nc2))
-                    {
-                        return format!("{c1}{nr1}:{c2}{nr2}");
-                    }
-                }
-            }
-            part.to_string()
-        }
-        _ => part.to_string(),
+/// The rows `first..=last` that `data` deletes from `sheet`, if it is a row deletion there.
+fn deleted_cf_rows(data: &DisplaceData, sheet: u32) -> Option<(i32, i32)> {
+    match data {
+        DisplaceData::Row {
+            sheet: s,
+            row,
+            delta,
+        } if *s == sheet && *delta < 0 => Some((*row, *row - *delta - 1)),
+        _ => None,
     }
 }
 
-/// Displaces every part of a space-separated sqref string.
-fn displace_cf_sqref(sqref: &str, data: &DisplaceData, sheet: u32) -> String {
-    sqref
+/// The columns `first..=last` that `data` deletes from `sheet`, if it is a column deletion there.
+fn deleted_cf_cols(data: &DisplaceData, sheet: u32) -> Option<(i32, i32)> {
+    match data {
+        DisplaceData::Column {
+            sheet: s,
+            column,
+            delta,
+        } if *s == sheet && *delta < 0 => Some((*column, *column - *delta - 1)),
+        _ => None,
+    }
+}
+
+/// Displaces the two edges `a` and `b` (both rows or both columns) of a range.
+/// Lines deleted at an edge of the range are clipped out: the range shrinks to the
+/// lines that survive. Returns the new edges together with the old position of the
+/// first one, or `None` if none of the lines of the range survives.
+fn displace_cf_edges(
+    a: i32,
+    b: i32,
+    deleted: Option<(i32, i32)>,
+    displace: impl Fn(i32) -> Option<i32>,
+) -> Option<(i32, i32, i32)> {
+    if let (Some(new_a), Some(new_b)) = (displace(a), displace(b)) {
+        return Some((new_a, new_b, a));
+    }
+    let (first_deleted, last_deleted) = deleted?;
+    let (mut low, mut high) = (a.min(b), a.max(b));
+    if (first_deleted..=last_deleted).contains(&low) {
+        low = last_deleted + 1;
+    }
+    if (first_deleted..=last_deleted).contains(&high) {
+        high = first_deleted - 1;
+    }
+    if low > high {
+        return None;
+    }
+    Some((displace(low)?, displace(high)?, low))
+}
+
+/// Displaces a single A1-style sqref part (e.g. "A1" or "A1:B5"): the part follows its cells.
+/// If some of its rows or columns are deleted the part shrinks to the surviving cells.
+/// Returns the new part together with the cell (before the displacement) that becomes its
+/// first corner, or `None` if all the cells of the part are deleted.
+fn displace_cf_sqref_part(
+    part: &str,
+    data: &DisplaceData,
+    sheet: u32,
+) -> Option<(String, Option<(i32, i32)>)> {
+    let upper = part.to_uppercase();
+    let segs: Vec<&str> = upper.splitn(2, ':').collect();
+    let (r1, r2) = match segs.len() {
+        1 => match utils::parse_reference_a1(segs[0]) {
+            Some(r) => (r.clone(), r),
+            None => return Some((part.to_string(), None)),
+        },
+        2 => match (
+            utils::parse_reference_a1(segs[0]),
+            utils::parse_reference_a1(segs[1]),
+        ) {
+            (Some(r1), Some(r2)) => (r1, r2),
+            _ => return Some((part.to_string(), None)),
+        },
+        _ => return Some((part.to_string(), None)),
+    };
+    let (nr1, nr2, source_row) =
+        displace_cf_edges(r1.row, r2.row, deleted_cf_rows(data, sheet), |row| {
+            displace_cf_row(row, data, sheet)
+        })?;
+    let (nc1, nc2, source_column) = displace_cf_edges(
+        r1.column,
+        r2.column,
+        deleted_cf_cols(data, sheet),
+        |column| displace_cf_col(column, data, sheet),
+    )?;
+    let (Some(c1), Some(c2)) = (utils::number_to_column(nc1), utils::number_to_column(nc2)) else {
+        return Some((part.to_string(), Some((r1.row, r1.column))));
+    };
+    let new_part = if segs.len() == 1 {
+        format!("{c1}{nr1}")
+    } else {
+        format!("{c1}{nr1}:{c2}{nr2}")
+    };
+    Some((new_part, Some((source_row, source_column))))
+}
+
+/// Displaces every part of a space-separated sqref string. Parts whose cells are all
+/// deleted are dropped (the result is empty if that happens to all of them).
+/// Also returns the cell (before the displacement) that becomes the first corner of the
+/// new sqref, if known.
+fn displace_cf_sqref(sqref: &str, data: &DisplaceData, sheet: u32) -> (String, Option<(i32, i32)>) {
+    let parts: Vec<(String, Option<(i32, i32)>)> = sqref
         .split_whitespace()
-        .map(|p| displace_cf_sqref_part(p, data, sheet))
+        .filter_map(|p| displace_cf_sqref_part(p, data, sheet))
+        .collect();
+    let source = parts.first().and_then(|(_, source)| *source);
+    let new_sqref = parts
+        .into_iter()
+        .map(|(part, _)| part)
         .collect::<Vec<_>>()
-        .join(" ")
+        .join(" ");
+    (new_sqref, source)
 }
 
 // NOTE: There is a difference with Excel behaviour when deleting cells/rows/columns
@@ -160,19 +223,23 @@ fn displace_cf_sqref(sqref: &str, data: &DisplaceData, sheet: u32) -> String {
 /// Displaces a single formula string (with or without leading `=`) using `to_string_displaced`.
 /// CF formulas are stored in English (see [Model::user_formula_to_internal]),
 /// so the caller must have the parser in the default (English) locale/language.
+///
+/// `contexts` are the cell the formula is read relative to (the first corner of the range)
+/// and the cell that becomes the first corner of the displaced range. They only differ
+/// when the former is deleted: the formula is then written as that other cell sees it.
 fn displace_cf_formula_str(
     parser: &mut ExprParser<'_>,
     formula: &str,
-    context: &CellReferenceRC,
+    contexts: (&CellReferenceRC, &CellReferenceRC),
     data: &DisplaceData,
 ) -> String {
     let trimmed = formula.trim();
     let has_eq = trimmed.starts_with('=');
     let body = if has_eq { &trimmed[1..] } else { trimmed };
-    let node = parser.parse(body, context);
+    let node = parser.parse(body, contexts.0);
     let displaced = to_string_displaced(
         &node,
-        context,
+        contexts.1,
         data,
         get_default_locale(),
         get_default_language(),
@@ -187,7 +254,7 @@ fn displace_cf_formula_str(
 fn displace_cfvo(
     parser: &mut ExprParser<'_>,
     cfvo: Cfvo,
-    context: &CellReferenceRC,
+    context: (&CellReferenceRC, &CellReferenceRC),
     data: &DisplaceData,
 ) -> Cfvo {
     if let Cfvo::Formula(f) = cfvo {
@@ -201,7 +268,7 @@ fn displace_cfvo(
 fn displace_cf_rule_formulas(
     parser: &mut ExprParser<'_>,
     rule: CfRule,
-    context: &CellReferenceRC,
+    context: (&CellReferenceRC, &CellReferenceRC),
     data: &DisplaceData,
 ) -> CfRule {
     match rule {
@@ -335,22 +402,24 @@ impl<'a> Model<'a> {
     }
 
     /// Updates the `range` field and formula fields of every CF rule on `sheet` according to `displace_data`.
+    /// A rule whose cells are all deleted is removed.
     fn displace_cf_ranges(&mut self, sheet: u32, displace_data: &DisplaceData) {
         let count = match self.workbook.worksheets.get(sheet as usize) {
             Some(ws) => ws.conditional_formatting.len(),
             None => return,
         };
 
-        // Phase 1: collect (index, new_range, old_rule, anchor) without holding a borrow on self.
+        // Phase 1: collect (index, new_range, old_rule, anchor, new anchor) without holding a borrow on self.
         let sheet_name = self.workbook.worksheets[sheet as usize].get_name();
-        let mut phase1: Vec<(usize, String, CfRule, i32, i32)> = Vec::with_capacity(count);
+        let mut phase1: Vec<(usize, String, CfRule, (i32, i32), (i32, i32))> =
+            Vec::with_capacity(count);
         for idx in 0..count {
             let cf = &self.workbook.worksheets[sheet as usize].conditional_formatting[idx];
             let old_range = cf.range.clone();
-            let new_range = displace_cf_sqref(&old_range, displace_data, sheet);
+            let (new_range, source) = displace_cf_sqref(&old_range, displace_data, sheet);
             let rule = cf.cf_rule.clone();
-            if let Some((anchor_row, anchor_col)) = cf_sqref_anchor(&old_range) {
-                phase1.push((idx, new_range, rule, anchor_row, anchor_col));
+            if let Some(anchor) = cf_sqref_anchor(&old_range) {
+                phase1.push((idx, new_range, rule, anchor, source.unwrap_or(anchor)));
             }
         }
 
@@ -361,19 +430,39 @@ impl<'a> Model<'a> {
         let language = self.language;
         self.parser.set_locale(get_default_locale());
         self.parser.set_language(get_default_language());
-        for (idx, new_range, rule, anchor_row, anchor_col) in phase1 {
+        let mut deleted = Vec::new();
+        for (idx, new_range, rule, anchor, new_anchor) in phase1 {
+            if new_range.is_empty() {
+                // all the cells of the rule are deleted
+                deleted.push(idx);
+                continue;
+            }
             let context = CellReferenceRC {
                 sheet: sheet_name.clone(),
-                row: anchor_row,
-                column: anchor_col,
+                row: anchor.0,
+                column: anchor.1,
             };
-            let new_rule =
-                displace_cf_rule_formulas(&mut self.parser, rule, &context, displace_data);
+            let new_context = CellReferenceRC {
+                sheet: sheet_name.clone(),
+                row: new_anchor.0,
+                column: new_anchor.1,
+            };
+            let new_rule = displace_cf_rule_formulas(
+                &mut self.parser,
+                rule,
+                (&context, &new_context),
+                displace_data,
+            );
             self.workbook.worksheets[sheet as usize].conditional_formatting[idx].range = new_range;
             self.workbook.worksheets[sheet as usize].conditional_formatting[idx].cf_rule = new_rule;
         }
         self.parser.set_locale(locale);
         self.parser.set_language(language);
+        for idx in deleted.into_iter().rev() {
+            self.workbook.worksheets[sheet as usize]
+                .conditional_formatting
+                .remove(idx);
+        }
     }
 
     /// Retrieves the column indices for a specific row in a given sheet, sorted in ascending or descending order.
